@@ -269,7 +269,13 @@ func init() {
 		st := in.encState(enc.c)
 		et := c.fn.Pkg.Type("vXMLEvent").Type()
 		at := c.fn.Pkg.Type("vXMLAttr").Type()
-		evs := st.events
+		maxDepth := argInt(c.args[2])
+		var evs []xmlEvent
+		for _, e := range st.events {
+			if e.depth <= maxDepth {
+				evs = append(evs, e)
+			}
+		}
 		if st.bad != "" || len(st.stack) != 0 {
 			evs = append(append([]xmlEvent{}, evs...), xmlEvent{depth: -1, name: Str{s: "!unbalanced"}})
 		}
